@@ -118,6 +118,15 @@ pub fn one_run(seed: u64, run: u64, pools: &Pools, deliveries: usize) -> RunOutc
     let mut out = RunOutcome::default();
     let mut log = report::EventLog::new(false);
     st.inc("runs");
+    // resource exhaustion (every fifth run), first thing in the run's process - before anything in it has
+    // created a thread whose stack the C library would keep for reuse: the decoders and verify in a
+    // process that cannot map any more memory, and therefore cannot start a thread either
+    if run % 5 == 0 {
+        let mut prng = Prng::new(report::run_seed(seed, "C03exhaustion", run));
+        if let Some((class, detail)) = exhaustion_probe(&mut prng, pools, &mut st) {
+            out.violations.push(Violation { property: PROP, class, detail, replay: json!({"kind": "rerun"}), run });
+        }
+    }
     for i in 0..deliveries {
         let d = dl::draw(&mut rng, pools, &mix, &PROFILE_C03);
         st.evaluations += 1;
@@ -195,19 +204,12 @@ pub fn one_run(seed: u64, run: u64, pools: &Pools, deliveries: usize) -> RunOutc
     if let Some((class, detail)) = teardown_probe(&mut rng, pools, &mut st) {
         out.violations.push(Violation { property: PROP, class, detail, replay: json!({"kind": "rerun"}), run });
     }
-    // resource exhaustion (every fifth run): the decoders and verify in a process that cannot map any more
-    // memory - and therefore cannot start a thread either
-    if run % 5 == 0 {
-        if let Some((class, detail)) = exhaustion_probe(&mut rng, pools, &mut st) {
-            out.violations.push(Violation { property: PROP, class, detail, replay: json!({"kind": "rerun"}), run });
-        }
-    }
     st.log_hash = log.hash;
     out.stats = st;
     out
 }
 
-/// Fault F1: a forked child of this run lowers its address-space limit to what it already uses plus 2 MiB,
+/// Fault F1: a forked child of this run lowers its address-space limit to what it already uses plus 1 MiB (less than one thread stack),
 /// then calls the three decoders and verify on well-formed inputs. Running out of memory inside an
 /// allocation aborts the process (the platform's behaviour, not a panic of the library): a child that
 /// dies is inconclusive. A child that survives must report that nothing unwound.
@@ -226,7 +228,7 @@ fn exhaustion_probe(rng: &mut Prng, pools: &Pools, st: &mut Stats) -> Option<(St
     let r = crate::isolate::isolated(
         move || {
             let pages: u64 = std::fs::read_to_string("/proc/self/statm").ok().and_then(|s| s.split_whitespace().next().and_then(|x| x.parse().ok())).unwrap_or(0);
-            let lim = pages * 4096 + (2 << 20);
+            let lim = pages * 4096 + (1 << 20);
             let rl = libc::rlimit { rlim_cur: lim, rlim_max: libc::RLIM_INFINITY };
             unsafe {
                 libc::setrlimit(libc::RLIMIT_AS, &rl);
